@@ -427,3 +427,29 @@ def whitespace_before_lexical_sinks(ctx: Ctx) -> None:
 
 
 share("C09", "C09.R1", whitespace_before_lexical_sinks)
+
+
+@rule("C05.R6")
+def converters_keep_no_context_free_memo(ctx: Ctx) -> None:
+    """Converter instances live in the process-wide registry: any memo they keep must be keyed by everything the result depends on (type, format, ns_map)."""
+    from .c14 import DESIGNATED, _classify, _control_sources, _flow_sources, _sites
+
+    conv = ctx.repo.cls(f"{CONV}:Converter")
+    family = {conv.qual, *[c.qual for c in conv.all_subclasses()], f"{CONV}:ConverterFactory"}
+    sites = [s for s in _sites(ctx) if s.cls.qual in family]
+    n = 0
+    for s in sites:
+        n += 1
+        ok, why = _classify(ctx, s)
+        ctx.ob(f"{s.cls.name}.{s.fi.name}: {s.kind} of self.{s.attr} is an admissible write", ok, at=s.fi, node=s.node, construct=f"{s.kind}:{s.attr}:{s.detail}", msg=why)
+        if s.kind == "setitem" and (s.cls.name, s.fi.name, s.attr) not in DESIGNATED:
+            params = [a.arg for a in s.fi.params if a.arg != "self"]
+            missing = sorted((_flow_sources(s.fi, s.value, params) | _control_sources(s.fi, s.node, params)) - _flow_sources(s.fi, s.key, params))
+            ctx.ob(f"{s.cls.name}.{s.fi.name}: memo self.{s.attr} is keyed by every input of the conversion", not missing, at=s.fi, node=s.node, construct=f"converter memo {s.attr}",
+                   msg=f"the cached result depends on {missing} (e.g. the prefix map or format passed as keyword arguments) which is not part of the key: the same literal converted in another context returns the first context's value")
+    ctx.ob(f"converter state write sites are registry (un)registrations only ({n} sites)", n >= 3, at=ctx.repo.func(f"{CONV}:ConverterFactory.register_converter"), construct="converter write sites", msg="registry writers vanished")
+
+
+from .c08 import prefixes_resolved_never_matched  # noqa: E402
+
+share("C05", "C05.R7", prefixes_resolved_never_matched)
